@@ -196,6 +196,9 @@ class Kit:
             class Service:
                 async def run(self):
                     return await payload()
+        if desc.get("falsy"):
+            # an (empty) container-like service: alive although it is falsy
+            Service.__len__ = lambda self: 0
         Service.__qualname__ = Service.__name__ = "Service_%s" % desc["id"]
         return service(flavour=FLAVOURS[flavour])(Service)
 
